@@ -112,7 +112,7 @@ func c12(ctx *core.Ctx) {
 	quietLogs()
 	ctx.Rule("rounds of W mutator goroutines (each owns one WebService key /k<i>: Add/Remove of a fresh WebService, and one route key /dyn/r<i>: Route/RemoveRoute on a dynamic-routes service; handlers return a unique generation) and R reader goroutines probing dynamic and stable URLs; both routers x {ServeHTTP, Dispatch}; yields injected through If-conditions (inside the read-locked selection) and a container filter. Monitors: Go race detector; client-boundary history {op, key, gen, call, return} checked by porcupine per key against a register over {absent, gen}; stable URLs must always get their fixed answer; panics; blocked-goroutine state detector. Non-trivial = a read that overlapped a write of its own key; distinct by (round configuration, key, observed value class).")
 	ctx.Assume("schedules are not reproducible: evidence reports the overlap actually observed", "a porcupine timeout is inconclusive, never a violation")
-	rounds := ctx.N(64, 2000)
+	rounds := ctx.N(64, 6000)
 	var totalOps, totalOverlap, partitions int
 	for ri := 0; ri < rounds; ri++ {
 		if ctx.Skip(ri) {
